@@ -113,6 +113,27 @@ def run_case(ctx, kind_, idx):
                         yk = "list with None"
                 r_arg, rt = gen.count_arg(rng, r)
                 info.update({"r": r, "r_type": rt, "containers": [xk, yk]})
+                if len(x) >= 5 and kind_ != "huge" and rng.integers(0, 3) == 0:
+                    # the request served just before this one: the same count on a SIBLING grid - same length, same first
+                    # sample, same last two samples, same sum of abscissae, two interior points moved towards each other
+                    # (a neighbouring sensor polled at slightly different times): an answer remembered under a cheap
+                    # summary of the grid would be handed out for this one
+                    xs_ = np.array(x, dtype=float)
+                    i_, j_ = sorted(int(v) for v in rng.choice(np.arange(1, len(xs_) - 2), size=2, replace=False)) \
+                        if len(xs_) >= 6 else (1, 2)
+                    if i_ != j_:
+                        d_ = 0.25 * float(np.min(np.diff(xs_)))
+                        if np.all(xs_ == np.round(xs_)) and d_ >= 0.25:
+                            d_ = 0.25 if d_ < 1 else float(int(d_))
+                        xs_[i_] += d_
+                        xs_[j_] -= d_
+                        if np.all(np.diff(xs_) > 0) and not np.array_equal(xs_, x):
+                            try:
+                                repeat(xs_, np.zeros(len(xs_)), r_arg)
+                                info["earlier_request_on_a_sibling_grid"] = True
+                                ctx.count("earlier_request_on_a_sibling_grid")
+                            except Exception:
+                                pass
                 gx, gy = callform.call(rng, repeat, "process.repeat", [xin, yin, r_arg])
                 ctx.judged()
                 ctx.monitor("c12:repeat")
